@@ -1043,21 +1043,34 @@ NATIVE = {
     "qulacs": ["I", "X", "Y", "Z", "H", "S", "Sdag", "T", "Tdag", "sqrtX", "sqrtXdag", "sqrtY", "sqrtYdag", "RX", "RY", "RZ", "U1", "U2", "U3",
                "CNOT", "CZ", "SWAP", "TOFFOLI", "dense1", "dense2", "cdense", "ccx_dense", "pauli", "paulirot", "FREDKIN", "P0"],
     "qiskit": ["h", "x", "y", "z", "s", "sdg", "t", "tdg", "sx", "sxdg", "id", "rx", "ry", "rz", "p", "u", "u1", "u2", "u3", "cx", "cz", "swap",
-               "ecr", "ccx", "unitary1", "unitary2", "unitary3", "cy", "ch", "crx", "rzz", "iswap", "ccz", "cswap"],
+               "ecr", "ccx", "unitary1", "unitary2", "unitary3", "cy", "ch", "crx", "rzz", "iswap", "ccz", "cswap", "cx_o0", "ccx_o"],
     "cirq": ["H", "X", "Y", "Z", "S", "T", "Sdag", "SqrtX", "SqrtXdag", "SqrtY", "Tdag", "rx", "ry", "rz", "CNOT", "CZ", "SWAP", "TOFFOLI",
-             "ISWAP", "matrix1", "matrix2", "XPow", "YPow", "ZPow", "CCZ"],
+             "ISWAP", "matrix1", "matrix2", "XPow", "YPow", "ZPow", "CCZ",
+             # other spellings of the named gates: powers Cirq regards as EQUAL to the gate (what cirq.inverse / op**-1 / gate**3 leave behind)
+             "Hpow", "CNOTpow", "CZpow", "SWAPpow", "TOFFOLIpow", "CCZpow", "ISWAPpow", "X.controlled",
+             # qubit-symmetric gates of the generic branch, and gates of the generic branch that are not symmetric (see key cirq.native-reverse.generic)
+             "CZfrac", "generic:CXPow-fractional", "generic:CY", "generic:CX-open-control", "generic:CSWAP"],
     "braket": ["h", "x", "y", "z", "s", "si", "t", "ti", "v", "vi", "rx", "ry", "rz", "phaseshift", "u", "u", "cnot", "cz", "swap", "ccnot",
                "unitary1", "unitary2", "unitary3", "iswap", "cy", "modifier:control", "modifier:neg-control", "modifier:power"],
     "tket": ["H", "X", "Y", "Z", "S", "Sdg", "T", "Tdg", "SX", "SXdg", "noop", "Rx", "Ry", "Rz", "U1", "U2", "U3", "CX", "CZ", "SWAP", "CCX", "CY",
              "Unitary1qBox", "Unitary2qBox", "Unitary3qBox"],
 }
 ARITY2 = {"CNOT", "CZ", "SWAP", "dense2", "cdense", "pauli", "paulirot", "cx", "cz", "swap", "cy", "ch", "unitary2", "ISWAP", "matrix2",
-          "cnot", "iswap", "CX", "CY", "ecr", "crx", "rzz", "Unitary2qBox", "modifier:control", "modifier:neg-control"}
-ARITY3 = {"TOFFOLI", "ccx", "ccnot", "CCX", "ccx_dense", "unitary3", "ccz", "cswap", "CCZ", "Unitary3qBox", "FREDKIN"}
+          "cnot", "iswap", "CX", "CY", "ecr", "crx", "rzz", "Unitary2qBox", "modifier:control", "modifier:neg-control",
+          "CNOTpow", "CZpow", "SWAPpow", "ISWAPpow", "X.controlled", "CZfrac", "generic:CXPow-fractional", "generic:CY", "generic:CX-open-control", "cx_o0"}
+ARITY3 = {"TOFFOLI", "ccx", "ccnot", "CCX", "ccx_dense", "unitary3", "ccz", "cswap", "CCZ", "Unitary3qBox", "FREDKIN", "TOFFOLIpow", "CCZpow", "generic:CSWAP", "ccx_o"}
 NPAR = {"RX": 1, "RY": 1, "RZ": 1, "U1": 1, "U2": 2, "U3": 3, "paulirot": 1, "rx": 1, "ry": 1, "rz": 1, "p": 1, "u": 3, "phaseshift": 1,
         "Rx": 1, "Ry": 1, "Rz": 1, "u1": 1, "u2": 2, "u3": 3, "crx": 1, "rzz": 1, "modifier:neg-control": 1}
 # native gates the reverse adapters do not take (reference tree): an error, as the property asks
 NATIVE_REJECTED = {"braket": {"iswap", "cy"}, "tket": {"CY"}, "qulacs": {"FREDKIN", "dense2", "P0"}}  # dense2: see note_once in judge()
+# native gates with a listed finding (or refused) on the reference tree: kept out of the adjoint-circuit runs
+NATIVE_KNOWN_BAD = {
+    "cirq": {"matrix2", "generic:CXPow-fractional", "generic:CY", "generic:CX-open-control", "generic:CSWAP"},
+    "tket": {"Unitary2qBox", "Unitary3qBox", "CY"},
+    "braket": {"modifier:control", "modifier:neg-control", "modifier:power", "iswap", "cy"},
+    "qulacs": {"cdense", "dense1", "dense2", "FREDKIN", "P0", "U1", "U2", "U3"},
+    "qiskit": {"iswap"},
+}
 # argument values the reverse adapters branch on, tried on every run
 PINNED_NATIVE = {
     "braket": [("u", [0.0, 0.0, 0.7]), ("u", [0.0, 0.9, 0.7]), ("u", [0.0, 0.9, 0.0]), ("u", [math.pi / 2, 0.9, 0.7]), ("u", [math.pi / 2, 0.0, 0.0]),
@@ -1084,6 +1097,10 @@ def native_specs(backend, rng, n, k):
         extra = None
         if g in ("XPow", "YPow", "ZPow", "modifier:power"):
             ps = [rng.choice([0.5, -0.5, 1.0, 1.5, -1.5, 0.25, -0.25, 1.75, 2.0, 3.0, round(rng.uniform(-2, 2), 3)])]
+        elif g.endswith("pow"):  # exponents under which the gate equals itself (odd; for ISWAP 1 mod 4)
+            ps = [rng.choice([-3, 1, 5, -7] if g == "ISWAPpow" else [-1, -1, 3, -3, 5, 1, -1.0, 3.0])]
+        elif g in ("CZfrac", "generic:CXPow-fractional"):
+            ps = [rng.choice([0.5, -0.5, 0.25, 1.5, round(rng.uniform(-0.9, 0.9), 3) or 0.3])]
         if g in ("dense1", "cdense", "unitary1", "matrix1", "Unitary1qBox"):
             extra = dense.random_unitary(rng, 2)
         elif g in ("dense2", "unitary2", "matrix2", "Unitary2qBox"):
@@ -1149,6 +1166,10 @@ def build_native(backend, n, specs):
                 getattr(c, g)(q[0], q[1])
             elif g in ("ccx", "ccz", "cswap"):
                 getattr(c, g)(q[0], q[1], q[2])
+            elif g == "cx_o0":  # open control: a different gate under a name that starts like cx
+                c.cx(q[0], q[1], ctrl_state=0)
+            elif g == "ccx_o":
+                c.ccx(q[0], q[1], q[2], ctrl_state=1 + (q[0] > q[1]))
             elif g in ("unitary1", "unitary2", "unitary3"):
                 c.unitary(extra, list(q))
             else:
@@ -1172,6 +1193,20 @@ def build_native(backend, n, specs):
                 ops.append(getattr(cirq, g).on(qs[q[0]], qs[q[1]], qs[q[2]]))
             elif g in ("XPow", "YPow", "ZPow"):  # other spellings of the named gates, and generic powers
                 ops.append((getattr(cirq, g[0]) ** ps[0]).on(qs[q[0]]))
+            elif g.endswith("pow"):
+                ops.append((getattr(cirq, g[:-3]) ** ps[0]).on(*[qs[i] for i in q]))
+            elif g == "CZfrac":
+                ops.append((cirq.CZ ** ps[0]).on(qs[q[0]], qs[q[1]]))
+            elif g == "generic:CXPow-fractional":
+                ops.append((cirq.CNOT ** ps[0]).on(qs[q[0]], qs[q[1]]))
+            elif g == "X.controlled":
+                ops.append(cirq.X.controlled().on(qs[q[0]], qs[q[1]]))
+            elif g == "generic:CY":
+                ops.append(cirq.Y.controlled().on(qs[q[0]], qs[q[1]]))
+            elif g == "generic:CX-open-control":
+                ops.append(cirq.X.controlled(control_values=[0]).on(qs[q[0]], qs[q[1]]))
+            elif g == "generic:CSWAP":
+                ops.append(cirq.CSWAP.on(qs[q[0]], qs[q[1]], qs[q[2]]))
             else:
                 ops.append(cirq.MatrixGate(extra).on(*[qs[i] for i in q]))
         ops.append(cirq.I.on(qs[n - 1]))  # keep the register size recoverable
@@ -1346,6 +1381,28 @@ def validate_native_reverse(ctx: Ctx, rounds: int):
             label, call, _ = calls[0] if rng.random() < 0.5 else rng.choice(calls)
             ctx.count(f"{backend}.native.call", label)
             judge_native(backend, call, label, n, specs, allow_reject=() if "True" in label else allow)
+        # the backend's own adjoint of a native circuit (un-computation): named gates come back as powers / daggered spellings
+        def build_adjoint(b, n, specs):
+            c = build_native(b, n, specs)
+            if b == "cirq":
+                import cirq
+
+                keep = cirq.I.on(cirq.LineQubit(n - 1))
+                return cirq.Circuit([cirq.inverse(c) if build_adjoint.how else c ** -1, keep])
+            return {"qiskit": lambda: c.inverse(), "braket": lambda: c.adjoint(), "tket": lambda: c.dagger(), "qulacs": lambda: c.get_inverse()}[b]()
+
+        saved = NATIVE[backend]
+        NATIVE[backend] = [g for g in saved if g not in NATIVE_KNOWN_BAD.get(backend, set())]
+        try:
+            for r in range(max(6, rounds // 3)):
+                n = rng.randint(1, 3)
+                specs = native_specs(backend, rng, n, rng.randint(1, 4))
+                if not specs:
+                    continue
+                build_adjoint.how = r % 2
+                judge_native(backend, rev, "adjoint of the native circuit", n, specs, build=build_adjoint, allow_reject=[sp[0] for sp in specs])
+        finally:
+            NATIVE[backend] = saved
         if backend == "qiskit":
             qiskit_registers(ctx, judge_native, rev, rounds)
             # pinned instance of the pre_conversion / swap case (random circuits reach it only now and then)
